@@ -10,7 +10,7 @@ site has its own (service, function) and the producing call of every value is kn
      and compared with CallRequestParams.tetraplets as the hosts of the REAL interpreter received them
      (harness/src/bin/tetra17.rs): values produced locally, received from other peers (2-4 hops), fold iterators
      over arrays / lens results / nested arrays / canon streams / streams, canon streams as whole arguments,
-     lenses and `.length` on canon streams, `new`-shadowed names, values copied by `ap`, %last_error% / :error:,
+     lenses and `.length` on canon streams, canon stream maps (whole, key.[i], key.[i].path, length), `new`-shadowed names, values copied by `ap`, %last_error% / :error:,
      calls addressed through scalars, and a peer that receives data recorded for ANOTHER call instruction;
  (2) correspondence: the same histories through harness/src/bin/exec.rs and the executor model
      (model/ExecCases.v), compared on the projection C17 talks about: the call requests of every run (service,
@@ -20,6 +20,7 @@ The three deviations of the code from the property text are known findings (corp
 the oracle tags exactly those shapes, everything else is reported."""
 import json
 import os
+import shutil
 import sys
 
 sys.path.insert(0, os.path.join(os.path.dirname(os.path.abspath(__file__)), "..", "lib"))
@@ -37,10 +38,14 @@ RULE = ("a case is one honest multi-peer history (generated script of the analys
         "literal; a sample of the histories is also run in lock-step with the executor model (requests compared exactly)")
 PARTIAL = [
     "C17_full (the property text for every argument kind) is REFUTED by the model and by the code (C17_full_refuted): `.length` "
-    "functors, lenses into canon streams and lenses on %last_error% / :error: (three known findings); C17_partial is the proved rest",
+    "functors (scalars, canon streams, canon maps), lenses into canon streams and lenses on %last_error% / :error: (three known "
+    "findings); C17_partial is the proved rest",
     "C17_stored_is_read assumes the scalars store is in a state where the current fold depth is allowed (matrix_ok) and no iterator has "
     "the variable's name; that this holds in every state reached by exec is not proved (the lock-step compares every request)",
-    "canon stream MAPS / stream maps are outside the executor model (XUnsupported) and outside the generator",
+    "canon stream maps: the model states exactly what the code does (C17_canon_map); the oracle judges the map as a whole (one tetraplet "
+    "per value, as multisets), #%m.$.key.[i](.rest) and #%m.length; a key group #%m.$.key (it comes with the canon peer's tetraplet and "
+    "the lens text) and fold iterators over a canon map ({key, value} objects carrying the value's tetraplet) are not judged: the "
+    "property text does not decide them",
     "`ap #canon x` gives x the canon stream's own tetraplet (canon peer, \"\", \"\"), so elements later taken from x do not name their "
     "producing calls; the property text does not say what a copied canon stream should carry: not generated, not judged",
     "the oracle identifies the element a fold iterator / canon element stands for by its VALUE (services return distinct constants)",
@@ -66,8 +71,8 @@ MODEL_CHECK = ("fun c => match model_outcome c with "
 
 
 def gen_cases(rng, tier, escalate=False):
-    n = {"quick": 260, "thorough": 6000}[tier] * (3 if escalate else 1)
-    n_model = {"quick": 8, "thorough": 120}[tier]
+    n = {"quick": 260, "thorough": 4000}[tier] * (3 if escalate else 1)
+    n_model = {"quick": 8, "thorough": 80}[tier]
     cases = []
     for i in range(n):
         lock = i < n_model
@@ -140,7 +145,13 @@ def evaluate(cases, result, tier):
         e.update({"oracles": [], "drain": True, "model_drain": True, "seed": 0})
         ecases.append(e)
     sub = {"evaluations": 0, "distinct": set(), "samples": [], "distribution": {}, "mismatch": [], "oracle_fail": [], "errors": []}
-    exec_common.evaluate(ecases, sub, {"model": MODEL_CHECK}, tag=PID, shard_size=8, distinct_of=lambda c, inf: None)
+    # own directory per process: two concurrent runs of this check must not wipe each other's case files
+    tag = "%s-%d" % (PID, os.getpid())
+    try:
+        exec_common.evaluate(ecases, sub, {"model": MODEL_CHECK}, tag=tag, shard_size=8, distinct_of=lambda c, inf: None)
+    finally:
+        if not sub["mismatch"] and not sub["errors"]:
+            shutil.rmtree(os.path.join(vlib.CACHE, "cases", tag), ignore_errors=True)
     dist["lock-step/histories"] = len(ecases)
     dist["lock-step/runs compared with the model"] = sum(v for k, v in sub["distribution"].items()
                                                         if k.startswith(("new:", "prev:", "empty:", "panic")))
